@@ -151,6 +151,8 @@ func (r *c09Run) lib(self int) []pstep {
 	var target [32]byte
 	copy(target[:], cn)
 	receipt := fix.ExtAddr(cn, e.Other.Hex())
+	var ibcTarget [32]byte
+	copy(ibcTarget[:], "ibc/9/fx") // no such channel: the IBC send itself fails, after the tokens were taken
 	fx := func(n int64) *big.Int { return chain.FX(n).BigInt() }
 	L := []pstep{
 		{Label: "staking.delegateV2(v0)", To: cst(st), Data: dat(fix.StakingPack("delegateV2", v0, fx(1000))), Precompile: true},
@@ -169,6 +171,8 @@ func (r *c09Run) lib(self int) []pstep {
 		{Label: "usdt.transfer(other)", To: cst(e.USDT.ERC20), Data: dat(chain.ERC20Pack("transfer", e.Other.Hex(), big.NewInt(30)))},
 		{Label: "crosschain.crossChain(usdt)", To: cst(cc), Data: dat(fix.PackCrosschain("crossChain", e.USDT.ERC20, receipt, big.NewInt(500), big.NewInt(5), target, "")), Precompile: true},
 		{Label: "crosschain.crossChain(fx by value)", To: cst(cc), Value: big.NewInt(1005), Data: dat(fix.PackCrosschain("crossChain", common.Address{}, receipt, big.NewInt(1000), big.NewInt(5), target, "")), Precompile: true},
+		{Label: "crosschain.crossChain(fx by value, ibc channel missing)", To: cst(cc), Value: big.NewInt(1000), Data: dat(fix.PackCrosschain("crossChain", common.Address{}, e.Other.Bech32(), big.NewInt(1000), big.NewInt(0), ibcTarget, "")), Precompile: true},
+		{Label: "crosschain.crossChain(usdt, ibc channel missing)", To: cst(cc), Data: dat(fix.PackCrosschain("crossChain", e.USDT.ERC20, e.Other.Bech32(), big.NewInt(500), big.NewInt(0), ibcTarget, "")), Precompile: true},
 		{Label: "crosschain.bridgeCall(usdt)", To: cst(cc), Data: func(a []common.Address) []byte {
 			return fix.PackCrosschain("bridgeCall", cn, a[self], []common.Address{e.USDT.ERC20}, []*big.Int{big.NewInt(300)}, e.Other.Hex(), []byte{1, 2}, big.NewInt(0), []byte{})
 		}, Precompile: true},
@@ -470,6 +474,14 @@ func (r *c09Run) compare(cons []pcontract, a *execOut, gas uint64, desc, class s
 	}
 	if !txOK {
 		r.res.Count("whole_tx_failures", 1)
+	}
+	// the precompile addresses are pass-through accounts: whatever a call sends them is forwarded
+	// or returned inside the same call, kept or not
+	for name, pa := range map[string]common.Address{"crosschain": fix.PrecompileCrosschain(), "staking": fix.PrecompileStaking()} {
+		if bal := c.App.BankKeeper.GetAllBalances(a.ctx, pa.Bytes()); !bal.IsZero() {
+			r.res.Violate("C09/value-stranded-in-precompile/"+name, "program %s (gas %d, tx ok=%v): the %s precompile account holds %s after the transaction", desc, gas, txOK, name, bal)
+		}
+		r.res.Count("precompile_account_checks", 1)
 	}
 	keep := keptSets(cons, a, txOK)
 	kept, disc := 0, 0
